@@ -61,6 +61,13 @@ def rule_record_to_graph(chk: Check, model: Model, rid: str):
     chk.add(rid, "EpisodeRecord.to_graph edge key", ok, "edges must be keyed (sender name, receiver name) with the sender taken from the receiver's inputs", chk.loc(fi))
     vd = _fields(r.ret).get("vertices") if r.ret[0] == "obj" else None
     ok = vd is not None and vd[0] == "comp" and vd[3][0][1] == T.mk_call("self.nodes.items", []) and not vd[4]
+    if not ok and vd is not None and vd[0] == "dict" and len(vd[1]) == 1:
+        # the same dict filled by an explicit loop: one unconditional store per node record, keyed by the node's name
+        sv = [x for x in r.events if x.kind == "store_sub" and x.name == "vertices"]
+        if len(sv) == 1 and len(sv[0].loops) == 1 and sv[0].loops[0] in r.loops and sv[0].guard == T.TRUE:
+            lp = r.loops[sv[0].loops[0]]
+            el = ("elem", lp.iter, lp.uid)
+            ok = lp.iter == T.mk_call("self.nodes.items", []) and sv[0].key == T.mk_index(el, T.ZERO) and sv[0].term == vs[0].term and vd[1][0] == (sv[0].key, sv[0].term)
     chk.add(rid, "EpisodeRecord.to_graph covers every node", ok, "every node record must become a vertex set (no filter)", chk.loc(fi))
 
 
